@@ -357,8 +357,9 @@ Definition hoist_here (o1 o2 : val) (target : val) (b : block) : option block :=
           | Some idx =>
               let yt := nth idx thy 0%nat in
               let ye := nth idx ely 0%nat in
-              (* Step 0 (F22 repair): operands must be defined in front of the scf.if *)
-              let late := flat_map top_defs between in
+              (* Step 0 (F22 repair): operands must be defined in front of the scf.if — not by the
+                 scf.if itself (index >= if_index) nor by a statement between it and the setup *)
+              let late := map fst rs ++ flat_map top_defs between in
               if existsb (fun fv => mem_nat (snd fv) late) fs then None
               (* Step 1: no launch on r between the if and the setup, none nested anywhere after the if *)
               else if existsb (fun s => stmt_launches_on r s) between then None
